@@ -8,11 +8,13 @@ import (
 	"bufio"
 	"encoding/json"
 	"fmt"
+	"math/rand"
 	"os"
 	"runtime"
 	"sort"
 	"strconv"
 	"sync"
+	"sync/atomic"
 	"testing"
 
 	"github.com/synnaxlabs/cesium/internal/channel"
@@ -239,5 +241,149 @@ func TestVerifControlReplay(t *testing.T) {
 	_ = enc.Encode(map[string]any{"summary": true, "replayed": n, "bad": len(all), "reps": reps})
 	for _, r := range all {
 		_ = enc.Encode(r)
+	}
+}
+
+// ---------------------------------------------------------------- concurrent traces
+
+type vcEvent struct {
+	Ev   string `json:"ev"`
+	S    string `json:"s,omitempty"`
+	Op   string `json:"op,omitempty"`
+	Auth int    `json:"auth"`
+	EU   bool   `json:"eu"`
+	Err  string `json:"err,omitempty"`
+	Xfer *vXfer `json:"xfer,omitempty"`
+	OK   bool   `json:"ok"`
+	seq  int64
+}
+
+// TestVerifControlConcurrent drives one controller from one goroutine per subject and
+// records call/ret events ordered by a global atomic counter (C05, schedules).
+func TestVerifControlConcurrent(t *testing.T) {
+	out := os.Getenv("VERIF_OUT")
+	if out == "" {
+		t.Skip("VERIF_OUT not set")
+	}
+	shared := os.Getenv("VERIF_SHARED") == "1"
+	seed, _ := strconv.ParseInt(os.Getenv("VERIF_SEED"), 10, 64)
+	rounds, _ := strconv.Atoi(os.Getenv("VERIF_ROUNDS"))
+	if rounds <= 0 {
+		rounds = 100
+	}
+	opsPer, _ := strconv.Atoi(os.Getenv("VERIF_OPS"))
+	if opsPer <= 0 {
+		opsPer = 6
+	}
+	subjects := []string{"s1", "s2", "s3"}
+	of, err := os.Create(out)
+	if err != nil {
+		t.Fatal(err)
+	}
+	defer of.Close()
+	w := bufio.NewWriter(of)
+	defer w.Flush()
+	enc := json.NewEncoder(w)
+	conc := xcontrol.ConcurrencyExclusive
+	if shared {
+		conc = xcontrol.ConcurrencyShared
+	}
+	for round := 0; round < rounds; round++ {
+		_ = enc.Encode(vcEvent{Ev: "reset"})
+		c, err := New[vRes](Config{Concurrency: conc})
+		if err != nil {
+			t.Fatal(err)
+		}
+		var (
+			seq    atomic.Int64
+			mu     sync.Mutex
+			events []vcEvent
+			wg     sync.WaitGroup
+			start  = make(chan struct{})
+		)
+		log := func(e vcEvent) {
+			mu.Lock()
+			events = append(events, e)
+			mu.Unlock()
+		}
+		for si, s := range subjects {
+			wg.Add(1)
+			go func(si int, s string) {
+				defer wg.Done()
+				rnd := rand.New(rand.NewSource(seed*1000003 + int64(round)*131 + int64(si)))
+				var gate *Gate[vRes]
+				<-start
+				for k := 0; k < opsPer; k++ {
+					if rnd.Intn(3) == 0 {
+						runtime.Gosched()
+					}
+					op := "open"
+					if gate != nil {
+						op = []string{"set", "authorize", "release", "set", "authorize", "open"}[rnd.Intn(6)]
+					}
+					auth := rnd.Intn(3)
+					eu := rnd.Intn(4) == 0
+					call := vcEvent{Ev: "call", S: s, Op: op, Auth: auth, EU: eu}
+					call.seq = seq.Add(1)
+					log(call)
+					ret := vcEvent{Ev: "ret", S: s, Op: op, Auth: auth, EU: eu}
+					var tr Transfer
+					switch op {
+					case "open":
+						euv := eu
+						g, tt, err := c.OpenGate(GateConfig[vRes]{
+							OpenResource:          func() (vRes, error) { return vRes{key: 7}, nil },
+							Subject:               xcontrol.Subject{Key: s, Name: s},
+							TimeRange:             telem.TimeRange{Start: 10, End: 20},
+							Authority:             xcontrol.Authority(auth),
+							ErrOnUnauthorizedOpen: &euv,
+						})
+						tr = tt
+						ret.Err = vErrClass(err)
+						if err == nil {
+							gate = g
+						}
+					case "set":
+						tr = gate.SetAuthority(xcontrol.Authority(auth))
+						ret.Err = "nil"
+					case "release":
+						_, tr = gate.Release()
+						gate = nil
+						ret.Err = "nil"
+					case "authorize":
+						_, aerr := gate.Authorize()
+						ret.OK = aerr == nil
+					}
+					if op != "authorize" {
+						x := vXfer{From: vStateOf(tr.From), To: vStateOf(tr.To)}
+						if !tr.Occurred() {
+							x = vXfer{From: vSt{S: "none"}, To: vSt{S: "none"}}
+						}
+						ret.Xfer = &x
+					}
+					ret.seq = seq.Add(1)
+					log(ret)
+				}
+				if gate != nil {
+					call := vcEvent{Ev: "call", S: s, Op: "release"}
+					call.seq = seq.Add(1)
+					log(call)
+					_, tr := gate.Release()
+					x := vXfer{From: vStateOf(tr.From), To: vStateOf(tr.To)}
+					if !tr.Occurred() {
+						x = vXfer{From: vSt{S: "none"}, To: vSt{S: "none"}}
+					}
+					ret := vcEvent{Ev: "ret", S: s, Op: "release", Err: "nil", Xfer: &x}
+					ret.seq = seq.Add(1)
+					log(ret)
+				}
+			}(si, s)
+		}
+		close(start)
+		wg.Wait()
+		sort.Slice(events, func(a, b int) bool { return events[a].seq < events[b].seq })
+		for _, e := range events {
+			_ = enc.Encode(e)
+		}
 	}
 }
